@@ -256,7 +256,34 @@ var Mutations = []Mutation{
 		}
 		return strings.Repeat(s, n)
 	}},
+	{"cut-balance-subline", func(r *rand.Rand, s, _ string, _ int) string {
+		// a multi-line balance assertion whose last line lost its commodity (or more)
+		ms := multiBalanceRe.FindAllStringSubmatchIndex(s, -1)
+		if len(ms) == 0 {
+			return s
+		}
+		m := ms[r.Intn(len(ms))]
+		block := s[m[2]:m[3]] // the sub-lines, each ending in a newline
+		ls := strings.SplitAfter(strings.TrimSuffix(block, "\n"), "\n")
+		last := ls[len(ls)-1]
+		fs := tokenRe.FindAllStringIndex(last, -1)
+		if len(fs) < 2 {
+			return s
+		}
+		keep := len(fs) - 1 - r.Intn(2)
+		if keep < 1 {
+			keep = 1
+		}
+		cut := last[:fs[keep-1][1]]
+		tail := "\n"
+		if r.Intn(3) == 0 {
+			tail = "" // ... at the very end of the block, followed by the blank line or the end of the text
+		}
+		return s[:m[2]] + strings.Join(ls[:len(ls)-1], "") + cut + tail + s[m[3]:]
+	}},
 }
+
+var multiBalanceRe = regexp.MustCompile(`(?m)^\d{4}-\d\d-\d\d[ \t]+balance[ \t]*\r?\n((?:[^\n]*\S[^\n]*\n)+)`)
 
 // Vocabulary for random token sequences: grammar tokens in orders the grammar
 // mostly does not foresee.
